@@ -194,7 +194,7 @@ func runIsolation(id int, c *isoCase) isoLine {
 						case inWrite <- struct{}{}:
 						default:
 						}
-						mck.WaitClosed(5 * time.Second) // the peer has stopped reading
+						mck.WaitClosed(30 * time.Second) // the peer has stopped reading
 						return memnet.WriteOutcome{N: 0, Err: memnet.ErrClosed}
 					}
 					aw := mkReq(k, i)
